@@ -762,7 +762,7 @@ class FnAnalysis:
                 continue
             if a.kind.startswith('other'):
                 return (0, INF)
-            n = (1, 1) if a.kind in ('byte', 'u8') else {'u16': (2, 2), 'u32': (4, 4), 'u64': (8, 8)}.get(a.kind) or (self.length(a.elem, a.block, depth + 1) if a.elem is not None else (0, INF))
+            n = (1, 1) if a.kind in ('byte', 'u8') else {'u16': (2, 2), 'u32': (4, 4), 'u64': (8, 8)}.get(a.kind.split(':')[-1]) or (self.length(a.elem, a.block, depth + 1) if a.elem is not None else (0, INF))
             if last(a.callee) == 'push':
                 n = (1, 1)
             if a.kind == 'bytesplit':
@@ -824,7 +824,7 @@ class FnAnalysis:
             if a.kind in ('byte', 'u8') or last(a.callee) == 'push':
                 const += 1
                 continue
-            w = {'u16': 2, 'u32': 4, 'u64': 8}.get(a.kind)
+            w = {'u16': 2, 'u32': 4, 'u64': 8}.get(a.kind.split(':')[-1])
             if w:
                 const += w
                 continue
